@@ -369,7 +369,17 @@ def _leaf_specs() -> List[Tuple[str, str, tuple, dict, int, int]]:
         ("MultiDigit(2,5)", "MultiDigit", (2, 5), {}, 1, 1),
         ("Dict", "Dict", ([1, 2], ["a", "-f"]), {}, 1, 1),
         ("FixStr", "FixStr", ("a-",), {}, 1, 1),
+        # compositions in which an inner combinator is not the first item of its value list / not at the start of the text
+        ("Seq(Grid(HexInt,1,2),2)", "Seq", (("new", "Grid", (("new", "HexInt", ()), 1, 2)), 2), {}, 3, 3),
+        ("Seq(Grid(Spaces|HexInt),2)", "Seq", (("new", "Grid", (("new", "OneOf", (("new", "Spaces", (0, "g")), ("new", "HexInt", ()))),)), 2), {}, 1, 2),
+        ("Seq(Tupl(DecInt,FixStr('-')),2)", "Seq", (("new", "Tupl", (("new", "DecInt", ()), ("new", "FixStr", ("-",)))), 2), {}, 1, 1),
     ]
+
+
+def _build(w: Any, x: Any) -> Any:
+    if isinstance(x, tuple) and len(x) == 3 and x[0] == "new":
+        return w.new(x[1], *[_build(w, a) for a in x[2]])
+    return x
 
 
 def _eval_job(args) -> Tuple[str, Optional[str], int]:
@@ -377,7 +387,18 @@ def _eval_job(args) -> Tuple[str, Optional[str], int]:
     repo = Repo(root, overrides)
     n = 0
 
-    def judge(w: SerWorld, comb: Obj, env: Obj, text: str, what: str) -> Optional[str]:
+    shifted: Dict[int, Obj] = {}
+
+    def judge(w: SerWorld, comb: Obj, env: Obj, text: str, what: str, shift: bool = True) -> Optional[str]:
+        if shift:
+            # the same decoder as the second part of a Tupl (it then starts reading at position 1, not 0)
+            c2 = shifted.get(id(comb))
+            if c2 is None:
+                c2 = shifted[id(comb)] = w.new("Tupl", w.new("FixStr", "0"), comb)
+                shifted[-id(comb)] = comb  # keep the key object alive
+            msg = judge(w, c2, env, "0" + text, f"Tupl(FixStr('0'), {what})", shift=False)
+            if msg:
+                return msg
         st, d = w.meth(comb, "deserialize", env, text, 0)
         if st == "raise":
             return None if d == "ValueError" else f"{what}: decoding {text!r} raises {d}"
@@ -404,7 +425,7 @@ def _eval_job(args) -> Tuple[str, Optional[str], int]:
         if kind == "leaf":
             spec = [s for s in _leaf_specs() if s[0] == label][0]
             w = SerWorld(repo)
-            comb = w.new(spec[1], *spec[2], **spec[3])
+            comb = w.new(spec[1], *[_build(w, a) for a in spec[2]], **spec[3])
             env = w.env(spec[4], spec[5])
             for k in range(0, 4):
                 for t in itertools.product(ALPHABET if deep else QUICK_ALPHABET, repeat=k):
